@@ -71,7 +71,15 @@ def gen_case(rng, params, idx):
                            repeat=0.2 if mode in ("plain", "method") else 0.0, extras=(), catchall=0.5)
     spec["mode"] = mode
     spec["split"] = rng.randint(1, max(1, len(spec["methods"]) - 1))
-    if mode in ("variant", "mixin"):
+    if rng.random() < 0.2:
+        # classes as arguments: a class object is an instance of its metaclass, so methods on ABCMeta / object apply to
+        # it (no type[...] annotation anywhere: the plain lookup by type(argument) must be used by delegations too)
+        for m in spec["methods"]:
+            for p in m["pos"]:
+                if rng.random() < 0.45:
+                    p["t"] = rng.choice(["ABCMeta", "ABCMeta", "object"])
+        spec["classes_as_arguments"] = True
+    if mode in ("variant", "mixin") or spec.get("classes_as_arguments"):
         # identical signatures on different nodes *replace* instead of pushing down: keep them distinct
         seen, ms = set(), []
         for m in spec["methods"]:
@@ -103,6 +111,9 @@ def check_case(spec, res):
         pool = DEP_VALUES
     else:
         pool = [["i", n] for n in [s["name"] for s in spec["hier"]] + ["object"]]
+        if spec.get("classes_as_arguments"):
+            res.count("programs_classes_as_arguments")
+            pool = pool + [["c", "Shape"], ["c", "Hashable"], ["c", "Hook"], ["c", spec["hier"][0]["name"]], ["c", "int"]]
     tuples = list(itertools.product(pool, repeat=spec["npos"]))
     if len(tuples) > 150:
         tuples = rng.sample(tuples, 150)
